@@ -664,6 +664,10 @@ def run(ctx):
         n6, f6 = c10_rtindex.run(ctx, quick)
         total += n6
         found |= f6
+        if not found:
+            n7, f7 = c10_rtindex.run_mutators(ctx, quick)
+            total += n7
+            found |= f7
     from vlib import c10_addr
     addr_ok = gen_err is None and (COQ / "C10" / "AddrTemplates.vo").exists() and (b["ok"] or "AddrTemplates" not in str(b.get("file", "")))
     n4, f4 = c10_addr.run(ctx, model_ok and addr_ok, 240 if quick else 2000)
